@@ -344,6 +344,65 @@ def _regex_syntax_dir(h):
     return ver, dirs[0]
 
 
+
+def _crate_dir(h, name):
+    """(version, source dir) of a crate as the harness links it (harness/Cargo.lock, source under $CARGO_HOME/registry)"""
+    ver = None
+    for lock in (os.path.join(os.path.dirname(os.path.dirname(os.path.dirname(os.path.abspath(__file__)))),
+                              "harness", "Cargo.lock"), os.path.join(h.REPO, "Cargo.lock")):
+        if os.path.exists(lock):
+            m = re.search(r'name = "' + re.escape(name) + r'"\s*\nversion = "([^"]+)"', open(lock).read())
+            if m:
+                ver = m.group(1)
+                break
+    if ver is None:
+        h.fail(f"{name} version not found in harness/Cargo.lock or /repo/Cargo.lock")
+    home = os.environ.get("CARGO_HOME", os.path.expanduser("~/.cargo"))
+    dirs = sorted(glob.glob(os.path.join(home, "registry", "src", "*", f"{name}-{ver}")))
+    if not dirs:
+        h.fail(f"source of {name} {ver} not found under {home}/registry/src")
+    return ver, dirs[0]
+
+
+# (fact name, crate, file, regex on the comment-stripped source; must match exactly once — group 1 is the fact)
+_REGEX_FACTS = [
+    ("Regex is built with match kind", "regex", "src/builders.rs",
+     r"impl\s+Builder\s*\{.*?fn\s+build_one_string\b.*?\.match_kind\(\s*MatchKind::([A-Za-z]+)\s*\)"),
+    ("escape A is the assertion", "regex-syntax", "src/ast/parse.rs",
+     r"'A'\s*=>\s*Ok\(Primitive::Assertion\(ast::Assertion\s*\{\s*span,\s*kind:\s*ast::AssertionKind::([A-Za-z]+)"),
+    ("escape z is the assertion", "regex-syntax", "src/ast/parse.rs",
+     r"'z'\s*=>\s*Ok\(Primitive::Assertion\(ast::Assertion\s*\{\s*span,\s*kind:\s*ast::AssertionKind::([A-Za-z]+)"),
+    ("StartText translates to", "regex-syntax", "src/hir/translate.rs",
+     r"ast::AssertionKind::StartText\s*=>\s*Hir::look\(hir::(Look::[A-Za-z]+)\)"),
+    ("EndText translates to", "regex-syntax", "src/hir/translate.rs",
+     r"ast::AssertionKind::EndText\s*=>\s*Hir::look\(hir::(Look::[A-Za-z]+)\)"),
+    ("Look::Start holds when", "regex-automata", "src/util/look.rs",
+     r"pub\s+fn\s+is_start\s*\([^)]*\)\s*->\s*bool\s*\{\s*([^{}]*?)\s*\}"),
+    ("Look::End holds when", "regex-automata", "src/util/look.rs",
+     r"pub\s+fn\s+is_end\s*\([^)]*\)\s*->\s*bool\s*\{\s*([^{}]*?)\s*\}"),
+    ("greediness of a repetition", "regex-syntax", "src/hir/translate.rs",
+     r"let\s+greedy\s*=\s*(if\s+self\.flags\(\)\.swap_greed\(\)\s*\{[^{}]*\}\s*else\s*\{[^{}]*\})\s*;"),
+    ("flag letter of swap_greed", "regex-syntax", "src/ast/parse.rs", r"'([A-Za-z])'\s*=>\s*Ok\(ast::Flag::SwapGreed\)"),
+    ("dot with dot_matches_new_line and unicode", "regex-syntax", "src/hir/translate.rs",
+     r"if\s+flags\.dot_matches_new_line\(\)\s*\{\s*if\s+flags\.unicode\(\)\s*\{\s*hir::(Dot::[A-Za-z]+)"),
+]
+
+
+def _regex_facts(h):
+    vers, rows, cache = [], [], {}
+    for crate in ("regex", "regex-automata", "regex-syntax"):
+        ver, d = _crate_dir(h, crate)
+        vers.append((crate, ver))
+        cache[crate] = d
+    for name, crate, rel, pat in _REGEX_FACTS:
+        src = _strip_comments(open(os.path.join(cache[crate], rel)).read())
+        ms = re.findall(pat, src, re.S)
+        if len(set(ms)) != 1:
+            h.fail(f"regex fact not found (or ambiguous: {len(ms)} matches) in {crate} {rel}: {name}")
+        rows.append((name, re.sub(r"\s+", " ", ms[0]).strip()))
+    return vers, rows
+
+
 def _byte_lit(h, t):
     t = t.strip()
     m = re.fullmatch(r"b'((?:\\.|\\x[0-9A-Fa-f]{2}|[^'\\]))'", t)
@@ -399,6 +458,15 @@ def fnmatch_regex_syntax(h):
         "def asciiClasses : List (String × List (Nat × Nat)) := [\n"
         + ",\n".join("  (\"" + n + "\", [" + ", ".join(f"({a}, {b})" for a, b in rs) + "])" for n, rs in rows)
         + "]\n"
+    )
+    vers, facts = _regex_facts(h)
+    out += (
+        "\n/-- the regex crates the harness links (harness/Cargo.lock): the facts below were read from THESE sources -/\n"
+        "def crateVersions : List (String × String) := ["
+        + ", ".join(f'("{a}", "{b}")' for a, b in vers) + "]\n\n"
+        "/-- what the model of the regex crate assumes, as the linked sources say it (tools/tables/fnmatch.py `_REGEX_FACTS`) -/\n"
+        "def regexFacts : List (String × String) := [\n"
+        + ",\n".join("  (" + h.lean_str(a) + ", " + h.lean_str(b) + ")" for a, b in facts) + "]\n"
     )
     h.write("FnmatchRegexSyntax", out)
 
